@@ -159,11 +159,24 @@ fn inline_image(lexer: &mut Lexer, resolve: &impl Resolve) -> Result<Arc<ImageXO
     lexer.next_expect("ID")?;
     let data_start = lexer.get_pos() + 1;
 
-    // find the end before try parsing.
-    if lexer.seek_substr("\nEI").is_none() {
-        bail!("inline image exceeds expected data range");
-    }    
-    let data_end = lexer.get_pos() - 3;
+    // Find the end before try parsing: the image data ends where a white-space character is followed by the
+    // token `EI`, i.e. `EI` and then white-space, a delimiter or the end of the stream.
+    let rest = lexer.get_remaining_slice();
+    let is_white = |b: u8| matches!(b, 0 | 9 | 10 | 12 | 13 | 32);
+    let ends_token = |b: Option<&u8>| b.map_or(true, |&b| is_white(b) || b"()<>[]{}/%".contains(&b));
+    let end = (0 .. rest.len())
+        .find(|&i| is_white(rest[i]) && rest[i + 1 ..].starts_with(b"EI") && ends_token(rest.get(i + 3)));
+    let end = match end {
+        Some(end) => end,
+        None => {
+            // as before: a failed search leaves the lexer at the end of the data
+            lexer.offset_pos(rest.len());
+            bail!("inline image exceeds expected data range");
+        }
+    };
+    // (the white-space character after `ID` may be the one before `EI`: no data)
+    let data_end = (lexer.get_pos() + end).max(data_start);
+    lexer.offset_pos(end + 3);
 
     // ugh
     let bits_per_component = dict.get("BitsPerComponent").map(|p| p.as_integer()).transpose()?;
